@@ -290,11 +290,11 @@ func bodyOf(val []byte) []byte {
 
 // Invalidation is a successful unsafe exchange.
 type Invalidation struct {
-	Exch    int
-	Target  *url.URL
-	Named   []*url.URL // same-origin URIs named by Location / Content-Location
-	Method  string
-	Status  int
+	Exch   int
+	Target *url.URL
+	Named  []*url.URL // same-origin URIs named by Location / Content-Location
+	Method string
+	Status int
 }
 
 var safeMethods = map[string]bool{"GET": true, "HEAD": true, "OPTIONS": true, "TRACE": true, "PROPFIND": true, "REPORT": true, "SEARCH": true, "PRI": true, "QUERY": true}
@@ -357,7 +357,6 @@ func methodClass(m string) string {
 	}
 	return "unknown-token"
 }
-
 
 // ---- C05 (body fidelity on every exchange) ----------------------------------
 
